@@ -424,7 +424,16 @@ def rule_c04_r3(model: Model) -> RuleResult:
                     conv = n
     if mk is None or conv is None:
         raise AnalysisError("pane.convert.from_data: make_converter / .convert call not found")
-    if cfg.node_dominates(mk, conv) and mk is not conv:
+    same_expr = False
+    if mk is conv:
+        # make_converter(...).convert(val): the converter is built while evaluating the receiver, before converting
+        for root in node_exprs(conv):
+            for c in walk_no_nested(root):
+                if isinstance(c, ast.Call) and isinstance(c.func, ast.Attribute) and c.func.attr == 'convert':
+                    if any(isinstance(x, ast.Call) and model.resolve(x.func, fd.module, fd) == 'pane.convert.make_converter'
+                           for x in ast.walk(c.func.value)):
+                        same_expr = True
+    if (cfg.node_dominates(mk, conv) and mk is not conv) or same_expr:
         r.ok()
     else:
         r.fail(fd.qualname, 'make_converter before convert', fd.loc(), "from_data must build the converter before converting")
